@@ -381,6 +381,18 @@ def det_jobs(tier, seed):
                  num_processes=2, num_privescs=2)
         p["num_exploits"] = p["num_services"]
         jobs.append(dict(kind="gen", key="gen:fw%d:%d" % (i, p["seed"]), params=p, repeat=2))
+    # dense definition tables: (almost) every (service, OS) / (process, OS) pair gets a definition
+    for i, (ns_, no_, np_) in enumerate([(4, 2, 2), (3, 1, 3), (2, 3, 2), (5, 1, 1)][: (4 if tier == "quick" else 4)]):
+        for less in (0, 1, 2):
+            p = dict(num_hosts=6, num_services=ns_, num_os=no_, num_processes=np_, uniform=False,
+                     num_exploits=max(1, ns_ * (no_ + 1) - less), num_privescs=max(1, np_ * (no_ + 1) - less),
+                     seed=seed * 10 + i + 7 * less)
+            jobs.append(dict(kind="gen", key="gen:dense%d-%d:%d" % (i, less, p["seed"]), params=p, repeat=2))
+    # a generated benchmark requested without a seed (numpy's global generator seeded), with and without an
+    # earlier request of the same benchmark with an explicit seed: same key, same scenario
+    for n in ["tiny-gen", "small-gen"] + ([] if tier == "quick" else ["medium-gen", "small-gen-rgoal"]):
+        jobs.append(dict(kind="bench", key="bench:%s:%d" % (n, seed), name=n, seed=seed + 3, repeat=2))
+        jobs.append(dict(kind="bench", key="bench:%s:%d" % (n, seed), name=n, seed=seed + 3, prior=seed + 11, repeat=2))
     for i in range(8 if tier == "quick" else 60):
         p = random_params(rng, 50000 + i + 131 * seed)
         p["num_privescs"] = None if p["num_processes"] * (p["num_os"] + 1) < 2 else p["num_privescs"]
